@@ -54,8 +54,9 @@ type Options struct {
 	Deadline  time.Time
 	NoCache   bool
 	MaxSteps  int
-	Iterate   bool // run bounds 0..Bound one after the other (reports the last completed)
-	KeepGoing bool // keep exploring after violations (collect distinct signatures)
+	Iterate   bool  // run bounds 0..Bound one after the other (reports the last completed)
+	KeepGoing bool  // keep exploring after violations (collect distinct signatures)
+	FreeCost  uint8 // see RunOptions.FreeCost
 }
 
 type explorer struct {
@@ -90,7 +91,7 @@ func picks(cs []Choice, n int) []int {
 }
 
 func (e *explorer) run(prefix []int, sigs []uint32) *Exec {
-	x := RunOnce(e.body, RunOptions{Trace: debugTrace, Prefix: prefix, PrefixSigs: sigs, MaxSteps: e.o.MaxSteps, Bound: e.bound, Cache: e.cache})
+	x := RunOnce(e.body, RunOptions{Trace: debugTrace, FreeCost: e.o.FreeCost, Prefix: prefix, PrefixSigs: sigs, MaxSteps: e.o.MaxSteps, Bound: e.bound, Cache: e.cache})
 	e.res.Executions++
 	e.res.Steps += int64(x.Steps)
 	e.res.States += int64(x.Keys)
@@ -304,6 +305,7 @@ func Explore(harness, variant string, body func(), o Options) *Result {
 // Replay runs one recorded choice sequence n times and checks that the observations agree.
 // maxSteps (optional) is the variant's per-execution step horizon; 0 / absent = default.
 func Replay(body func(), choices []int, n int, maxSteps ...int) (*Exec, error) {
+	// (costs do not matter for a replay: the bound is unlimited)
 	var first *Exec
 	ms := 0
 	if len(maxSteps) > 0 {
